@@ -13,15 +13,23 @@ from ..source import AnalysisError, src
 def loop_validation(ctx, res: Result, fi: FuncInfo, iter_name: str, count_term: str, rule="V-states-validated", label=None, need_type=True) -> None:
     """In fi there is a loop over `iter_name` whose body, for the loop element s, rejects
     non-State values, rejects len(s) != count_term and calls s._validate() unconditionally."""
+    from ..inline import with_helpers
+    orig = fi
+    fi = with_helpers(ctx, fi)
     loops = [l for l in walk_no_nested(fi.node) if isinstance(l, ast.For) and src(l.iter) == iter_name and isinstance(l.target, ast.Name)]
+    loops.sort(key=lambda l: l.lineno)
     inst = label or f"{fi.qualname}:{iter_name}"
     if not loops:
+        passed_on = [c for c in walk_no_nested(fi.node) if isinstance(c, ast.Call) and any(isinstance(a, ast.Name) and a.id == iter_name for a in c.args)]
+        if passed_on:
+            res.frozen(False, rule, inst, fi.site(), fi.qualname, "", f"no loop over `{iter_name}` recognised; it is passed to `{src(passed_on[0].func)}`", construct=inst)
+            return
         res.bad(rule, inst, fi.site(), fi.qualname, f"no loop validates every element of `{iter_name}`", construct=inst)
         return
     lp = loops[0]
     v = lp.target.id
     norm = Normaliser(lambda e: repr(e.value) if isinstance(e, ast.Constant) else None)
-    calls = [s for s in lp.body if isinstance(s, ast.Expr) and src(s.value) == f"{v}._validate()"]
+    calls = [s for s in lp.body if isinstance(s, ast.Expr) and src(s.value) in (f"{v}._validate()", f"State._validate({v})")]
     if not calls:
         res.bad(rule, inst + ":values", fi.site(lp), fi.qualname, f"occupation values of `{iter_name}` elements are not validated unconditionally ({v}._validate() missing): negative / non-integer occupations reach the backend", construct=src(lp)[:120])
     else:
